@@ -1046,7 +1046,9 @@ impl ElementRaw {
             // and ContentMode::mixed allow any number of elements in any order.
             // This optimization is particularly relevant for <AR-PACKAGE><ELEMENTS>, which could contain a large number of sub elements
             if self.elemtype.content_mode() == ContentMode::Bag || self.elemtype.content_mode() == ContentMode::Mixed {
-                return Ok((0, self.content.len()));
+                // the SHORT-NAME of an identifiable element always remains the first sub element
+                let start_pos = usize::from(self.item_name().is_some());
+                return Ok((start_pos, self.content.len()));
             }
 
             let mut start_pos = 0;
